@@ -582,7 +582,7 @@ Theorem mtag_meets_oracle_gen B mt a m i : conversions_meet_spec -> mtag_repaire
   | Unconstrained => True
   end.
 Proof.
-  intros HC HB Hp Hi0. unfold spec_answer_mtag.
+  intros HC HB Hp Hi0. unfold spec_answer_mtag, mtag_array_dom.
   destruct (mtag_shape_ok mt (zlen (a_dims a))) eqn:Hs; [|exact I].
   destruct (1 <=? zlen (a_dims a)) eqn:Hn; [|exact I].
   destruct (dims_dom (a_dims a) (a_shape a)) eqn:Hd; [|exact I]. cbn [andb negb].
@@ -614,4 +614,112 @@ Proof.
       * destruct V as [_ R]. exfalso. exact (oracle_refuse _ _ _ E _ _ R).
       * destruct V as [-> _]. reflexivity.
       * contradiction.
+Qed.
+
+(* ------------------------------------------------------------------------------------------ *)
+(** * the list-level oracles ([spec_mtag_views], [spec_mtag_offcnts]) and the model *)
+
+Lemma array_dom_ok mt a : mtag_array_dom mt a = true -> mtag_ok mt a.
+Proof.
+  unfold mtag_array_dom. intro H. apply andb_true_iff in H. destruct H as [H H3]. apply andb_true_iff in H. destruct H as [H1 H2].
+  apply Z.leb_le in H2. constructor; assumption.
+Qed.
+
+Lemma answers_constrained {A} : forall (l : list (answer A)), answers l <> Unconstrained ->
+  forall x, In x l -> x <> Unconstrained.
+Proof.
+  induction l as [|y l IH]; intros H x Hx; [contradiction|]. cbn [answers] in H.
+  destruct Hx as [<-|Hx].
+  - intro E. rewrite E in H. apply H. reflexivity.
+  - apply IH; [|exact Hx]. intro E. rewrite E in H. apply H. destruct y; reflexivity.
+Qed.
+
+Lemma view_constrained incl mt a i : spec_mtag_view incl mt a i <> Unconstrained ->
+  spec_answer_mtag incl mt a i <> Unconstrained.
+Proof. unfold spec_mtag_view, add_ids. intros H E. rewrite E in H. apply H. reflexivity. Qed.
+
+(** an index the oracle judges is inside the statement *)
+Lemma oracle_index_ok incl mt a i : mtag_array_dom mt a = true -> 0 <= i ->
+  spec_answer_mtag incl mt a i <> Unconstrained -> mtag_index_ok mt a i.
+Proof.
+  intros Hdom Hi0 Hc. split; [exact Hi0|]. intro Hlt. unfold spec_answer_mtag in Hc. rewrite Hdom in Hc. cbn [negb] in Hc.
+  replace ((i <? 0) || (mtag_npos mt <=? i)) with false in Hc by lia.
+  unfold mtag_array_dom in Hdom. apply andb_true_iff in Hdom. destruct Hdom as [Hdom Hd]. apply andb_true_iff in Hdom. destruct Hdom as [Hs Hn].
+  unfold spec_answer in Hc. rewrite Hn, Hd in Hc. cbn [andb] in Hc.
+  destruct (wants_dom (a_dims a) (mtag_wants mt a i)) eqn:Hw; [|exfalso; apply Hc; reflexivity].
+  split; [reflexivity|]. intro X. destruct (dims_dom_nth _ _ Hd) as [Lsh _].
+  assert (Lw : List.length (mtag_wants mt a i) = List.length (a_dims a)).
+  { unfold mtag_wants. rewrite Hs. cbn [negb]. apply wants_from_length. }
+  apply (spec_dims_unconstrained incl _ _ _ Lsh Lw) in X. apply Hc. unfold spec_region. rewrite X. reflexivity.
+Qed.
+
+Definition strip (v : view3) : list Z * list Z := fst v.
+
+Section ListOracle.
+  Variable B : behaviour.
+  Variable mt : mtag.
+  Variable a : darray.
+  Variable m : RangeMatch.
+  Hypothesis HC : conversions_meet_spec.
+  Hypothesis HB : mtag_repaired B.
+  Hypothesis Hpin : mtag_pinned_free B mt a m.
+
+  Lemma singles_meet_oracle : forall L, (forall i, In i L -> 0 <= i) ->
+    match answers (map (spec_mtag_view (incl_of m) mt a) L) with
+    | Region vs => mapM (fun i => taggedData_mtag1 B mt i a m) L = Ok (map strip vs)
+    | Refuse => mapM (fun i => taggedData_mtag1 B mt i a m) L = Err E_OutOfBounds
+    | Unconstrained => True
+    end.
+  Proof.
+    induction L as [|i L IH]; intro Hi; [reflexivity|].
+    specialize (IH (fun j Hj => Hi j (or_intror Hj))). cbn [map answers mapM].
+    pose proof (mtag_meets_oracle_gen B mt a m i HC HB Hpin (Hi i (or_introl eq_refl))) as O.
+    unfold spec_mtag_view at 1. unfold add_ids.
+    destruct (spec_answer_mtag (incl_of m) mt a i) as [[off cnt]| |]; try exact I.
+    - rewrite O. cbn [bind].
+      destruct (answers (map (spec_mtag_view (incl_of m) mt a) L)) as [vs| |]; try exact I.
+      + rewrite IH. reflexivity.
+      + rewrite IH. reflexivity.
+    - rewrite O. cbn [bind].
+      destruct (answers (map (spec_mtag_view (incl_of m) mt a) L)); try exact I; reflexivity.
+  Qed.
+
+  (** taggedData for an index list (the empty list = all positions) answers what the list oracle answers *)
+  Theorem mtag_views_meet_oracle_gen idxs : (forall i, In i idxs -> 0 <= i) ->
+    match spec_mtag_views (incl_of m) mt a idxs with
+    | Region vs => taggedData_mtag B mt idxs a m = Ok (map strip vs)
+    | Refuse => taggedData_mtag B mt idxs a m = Err E_OutOfBounds
+    | Unconstrained => True
+    end.
+  Proof.
+    intro Hi. unfold spec_mtag_views. destruct (mtag_array_dom mt a) eqn:Hdom; [|exact I]. cbn [negb].
+    pose proof (array_dom_ok mt a Hdom) as Hok.
+    set (L := positions_or_all mt idxs).
+    assert (HL : forall i, In i L -> 0 <= i).
+    { intros i Hin. unfold L, positions_or_all in Hin. destruct idxs; [apply In_ziota in Hin; lia|apply Hi; exact Hin]. }
+    pose proof (singles_meet_oracle L HL) as S.
+    destruct (answers (map (spec_mtag_view (incl_of m) mt a) L)) as [vs| |] eqn:EA; try exact I.
+    all: assert (Hio : forall i, In i L -> mtag_index_ok mt a i)
+      by (intros i Hin; apply (oracle_index_ok (incl_of m) mt a i Hdom (HL i Hin)); apply view_constrained;
+          apply (answers_constrained (map (spec_mtag_view (incl_of m) mt a) L)); [rewrite EA; discriminate|apply in_map; exact Hin]).
+    all: assert (E : taggedData_mtag B mt idxs a m = mapM (fun i => taggedData_mtag1 B mt i a m) L)
+      by (unfold L, positions_or_all in *; destruct idxs as [|i0 rest];
+          [apply (mtag_all_positions_gen B mt a m HC HB Hok Hpin); intros i Hr; apply Hio; apply In_ziota; lia
+          |apply (mtag_list_is_map_gen B mt a m HC HB Hok Hpin); [discriminate|exact Hio]]).
+    all: rewrite E; exact S.
+  Qed.
+End ListOracle.
+
+(** getOffsetAndCount on an empty index list: inside the domain the oracle says "no results" and so does the model;
+    outside the domain (e.g. a range dimension with fewer ticks than elements) the oracle is silent *)
+Theorem mtag_offcnts_empty_oracle mt a m :
+  match spec_mtag_offcnts (incl_of m) mt a [] with
+  | Region vs => vs = [] /\ getOffsetAndCount_mtag repaired_except_pinned mt a [] m = Ok []
+  | Refuse => False
+  | Unconstrained => mtag_array_dom mt a = false
+  end.
+Proof.
+  unfold spec_mtag_offcnts. destruct (mtag_array_dom mt a) eqn:Hdom; [|reflexivity]. cbn [negb map answers].
+  split; [reflexivity|]. apply mtag_empty_list_defined.
+  unfold mtag_array_dom in Hdom. apply andb_true_iff in Hdom. apply Hdom.
 Qed.
